@@ -36,9 +36,14 @@ const (
 	// the failed send must leave the association, its deadline and its socket as they are
 	tokFailL = 14 // 127.0.0.1:0
 	tokFailP = 15 // 192.0.2.2:0
-	natT     = 300 * time.Millisecond
-	dnsT     = 17 * time.Second
-	boundMs  = 500
+	// target-switch family (Gen_UdpNatRealSwitch.cfg): destinations whose SOCKS address header is exactly as long as that of
+	// another destination and differs from it in the port and/or the address/name only
+	tokNLoop2 = 16 // localhost:pA2         (the name of 11 with the port of A2)
+	tokNAlt   = 17 // alt.verif.test:pA2    (fake DNS -> 127.0.0.1; as long as pub.verif.test)
+	tokC2     = 18 // [::1]:p'              another port of C's host
+	natT      = 300 * time.Millisecond
+	dnsT      = 17 * time.Second
+	boundMs   = 500
 )
 
 type world struct {
@@ -67,6 +72,7 @@ func newWorld(rng *rand.Rand, withZoned bool) *world {
 	must(tokA2, "A2", "udp4", "127.0.0.1:0")
 	must(tokS, "S", "udp4", "127.0.0.9:0")
 	must(tokC, "C", "udp6", "[::1]:0")
+	must(tokC2, "C2", "udp6", "[::1]:0")
 	if hasAddr("192.0.2.2") {
 		must(tokE, "E", "udp4", "192.0.2.2:0")
 	}
@@ -95,6 +101,9 @@ func newWorld(rng *rand.Rand, withZoned bool) *world {
 	// host names: net.ResolveUDPAddr in the packet handler goes through net.DefaultResolver -> in-process fake DNS
 	zone := map[string][]net.IP{}
 	w.names[tokNLoop] = nameDst{"localhost", tokA}
+	w.names[tokNLoop2] = nameDst{"localhost", tokA2}
+	zone["alt.verif.test"] = []net.IP{net.IPv4(127, 0, 0, 1).To4()}
+	w.names[tokNAlt] = nameDst{"alt.verif.test", tokA2}
 	if w.socks[tokE] != nil {
 		zone["pub.verif.test"] = []net.IP{net.IPv4(192, 0, 2, 2).To4()}
 		w.names[tokNPub] = nameDst{"pub.verif.test", tokE}
